@@ -75,8 +75,10 @@ impl io::Write for SimpleChecksum {
 impl Hasher for SimpleChecksum {
     #[inline]
     fn write(&mut self, buf: &[u8]) {
-        let new_sum = buf.iter().map(|v| u32::from(*v)).sum::<u32>();
-        self.0 = ((u32::from(self.0) + new_sum) & 0xffff) as u16;
+        // sum of all octets mod 65536: wrapping, so that the length of `buf` is not limited
+        self.0 = buf
+            .iter()
+            .fold(self.0, |sum, v| sum.wrapping_add(u16::from(*v)));
     }
 
     #[inline]
